@@ -89,6 +89,11 @@ CHECKS = {
          '2-3 threads open streams that stay live, id counter started at 0, 1, 2^32-3..2^32-1; scheduling points before every line (and, in a separate part, every bytecode) of _open and '
          '_AdbTransactionInfo.__init__ plus lock/transport points; all schedules to preemption bound 2 (thorough 3); asyncio tasks under every I/O completion order; sequential histories across '
          'the wrap. Every OPEN id must be in [1, 2^32-1] and unique among live streams.', 'trusts adbsim and the protocol monitor; SC at bytecode granularity (GIL)', '4/C14'),
+ 'C17': ('exploration', 'exhaustive enumeration of (key, signer, token shape) judged by pure-integer RSA and an independent blob decoder',
+         'Seeded deterministic 2048-bit keys (own Miller-Rabin search) and fresh keygen() keys are written to disk and re-loaded through all three signer classes; ~230 token shapes (all-zero, '
+         'all-0xff, every single byte / single bit, leading zeros, random) are signed by each; s^e mod n must equal the EMSA-PKCS1-v1_5 encoding of the token as a SHA-1 digest, cryptography\'s '
+         'Prehashed(SHA1) verifier must agree, the three signers must produce identical bytes, and the 524-byte Android RSAPublicKey must decode to the private key\'s numbers.',
+         'decided for the enumerated keys x token shapes only (RSA over all keys is not finite-state); OS randomness in keygen() is not owned', '4/C17'),
 }
 NOT_YET = 'check not built yet in this round (planned, see DESIGN.md section 4); not claimed until it runs'
 
